@@ -470,10 +470,23 @@ func (e *Extractor) invokeXObject(name string) error {
 		}
 	}
 
-	// Register fonts from XObject's resources
+	// Register fonts from XObject's resources. A resource name belongs to the
+	// resource dictionary that defines it: a form that calls its font /F1
+	// must not replace the /F1 of the content stream that draws it. Remember
+	// the bindings in force so they can be put back when the form is done.
+	var outerFonts map[string]*font.Font
 	if xobjResources != nil {
+		outerFonts = make(map[string]*font.Font, len(e.fonts))
+		for fontName, f := range e.fonts {
+			outerFonts[fontName] = f
+		}
 		if err := e.RegisterFontsFromResources(xobjResources, e.resolver); err != nil {
 			// Non-fatal - continue with existing fonts
+		}
+	}
+	restoreFonts := func() {
+		for fontName, f := range outerFonts {
+			e.fonts[fontName] = f
 		}
 	}
 
@@ -505,6 +518,7 @@ func (e *Extractor) invokeXObject(name string) error {
 		e.resources = oldResources
 		e.xobjectDepth--
 		e.gs.Restore()
+		restoreFonts()
 		return fmt.Errorf("failed to parse XObject content: %w", err)
 	}
 
@@ -519,6 +533,7 @@ func (e *Extractor) invokeXObject(name string) error {
 	e.resources = oldResources
 	e.xobjectDepth--
 	e.gs.Restore()
+	restoreFonts()
 
 	return nil
 }
